@@ -43,8 +43,6 @@ impl<K: ExpiredKey<E>, E: Expiration, V: Copy> KeyExpTree<K, E, V> {
 
     #[inline]
     fn create_ordered_list(&mut self, time: E) -> Vec<V> {
-        self.expire_all(time);
-
         let height = self.height();
         let mut stack = Vec::with_capacity(height);
         let mut list = Vec::with_capacity(8 << height);
@@ -74,7 +72,9 @@ impl<K: ExpiredKey<E>, E: Expiration, V: Copy> KeyExpTree<K, E, V> {
 
                     let node = self.node(index);
 
-                    list.push(node.entity.val);
+                    if node.is_not_expired(time) {
+                        list.push(node.entity.val);
+                    }
                 }
 
                 if s.right != EMPTY_REF {
@@ -107,34 +107,5 @@ impl<K: ExpiredKey<E>, E: Expiration, V: Copy> KeyExpTree<K, E, V> {
         }
 
         height << 1
-    }
-
-    #[inline]
-    fn expire_all(&mut self, time: E) {
-        let n = self.store.buffer.len() as u32;
-        for i in 1..n {
-            if self.is_part_of_the_tree(i) && self.node(i).entity.key.expiration() < time {
-                self.delete_index(i);
-            }
-        }
-    }
-
-    #[inline]
-    fn is_part_of_the_tree(&self, index: u32) -> bool {
-        let mut prev = index;
-        let mut cursor = self.node(index).parent;
-        while cursor != 0 && cursor != EMPTY_REF && cursor != index {
-            prev = cursor;
-            let parent_index = self.node(cursor).parent;
-            if parent_index == EMPTY_REF {
-                break;
-            }
-            let parent = self.node(parent_index);
-            if parent.left != cursor && parent.right != cursor {
-                return false;
-            }
-            cursor = parent_index;
-        }
-        prev == self.root
     }
 }
